@@ -251,7 +251,6 @@ func mergeUlimit(_ any, o any, p tree.Path) (any, error) {
 }
 
 func mergeIPAMConfig(c any, o any, path tree.Path) (any, error) {
-	var ipamConfigs []any
 	base, ok := c.([]any)
 	if !ok {
 		return nil, fmt.Errorf("%s must be a list", path)
@@ -260,38 +259,37 @@ func mergeIPAMConfig(c any, o any, path tree.Path) (any, error) {
 	if !ok {
 		return nil, fmt.Errorf("cannot override %s", path)
 	}
+	// configs are identified by their subnet: those of the base are kept, in order
+	configs := make([]map[string]any, 0, len(base)+len(overrides))
 	for _, original := range base {
 		right := convertIntoMapping(original, nil)
 		if right == nil {
 			return nil, fmt.Errorf("cannot override %s", path)
 		}
-		for _, override := range overrides {
-			left := convertIntoMapping(override, nil)
-			if !reflect.DeepEqual(left["subnet"], right["subnet"]) {
-				// check if left is already in ipamConfigs, add it if not and continue with the next config
-				if !slices.ContainsFunc(ipamConfigs, func(a any) bool {
-					return reflect.DeepEqual(a.(map[string]any)["subnet"], left["subnet"])
-				}) {
-					ipamConfigs = append(ipamConfigs, left)
-					continue
-				}
-			}
-			merged, err := mergeMappings(right, left, path)
-			if err != nil {
-				return nil, err
-			}
-			// find index of potential previous config with the same subnet in ipamConfigs
-			indexIfExist := slices.IndexFunc(ipamConfigs, func(a any) bool {
-				return reflect.DeepEqual(a.(map[string]any)["subnet"], merged["subnet"])
-			})
-			// if a previous config is already in ipamConfigs, replace it
-			if indexIfExist >= 0 {
-				ipamConfigs[indexIfExist] = merged
-			} else {
-				// or add the new config to ipamConfigs
-				ipamConfigs = append(ipamConfigs, merged)
-			}
+		configs = append(configs, right)
+	}
+	for _, override := range overrides {
+		left := convertIntoMapping(override, nil)
+		if left == nil {
+			return nil, fmt.Errorf("cannot override %s", path)
 		}
+		// an override for a subnet already known is merged into it, any other one is added
+		indexIfExist := slices.IndexFunc(configs, func(config map[string]any) bool {
+			return reflect.DeepEqual(config["subnet"], left["subnet"])
+		})
+		if indexIfExist < 0 {
+			configs = append(configs, left)
+			continue
+		}
+		merged, err := mergeMappings(configs[indexIfExist], left, path)
+		if err != nil {
+			return nil, err
+		}
+		configs[indexIfExist] = merged
+	}
+	ipamConfigs := make([]any, len(configs))
+	for i, config := range configs {
+		ipamConfigs[i] = config
 	}
 	return ipamConfigs, nil
 }
